@@ -8,6 +8,7 @@
 //   E id kind seed ...                -> end-to-end Refine / Simplify cases (see below)
 // All numbers printed are integers or IEEE bit patterns.
 #include <algorithm>
+#include <array>
 #include <cmath>
 #include <cstdint>
 #include <cstdio>
@@ -27,6 +28,7 @@
 #include "subdivision.cpp"
 #undef private
 #include "manifold/manifold.h"
+#include "csg_tree.h"
 
 using namespace manifold;
 
